@@ -49,6 +49,13 @@ fn call_forms(n: &str) -> Vec<(&'static str, String, Ast)> {
         ("n<NEL>x", format!("{}\u{85}1", n), call(n, one())),
         ("n<IDEOGRAPHIC SPACE>x", format!("{}\u{3000}1", n), call(n, one())),
         ("n/**/x", format!("{}/**/1", n), call(n, one())),
+        ("1>n(7)", format!("1>{}(7)", n), Ast::Bin(crate::refmodel::ops::BinOp::Gt, Box::new(one()), Box::new(call(n, lit(RV::Int(7)))))),
+        ("1<n 7", format!("1<{} 7", n), Ast::Bin(crate::refmodel::ops::BinOp::Lt, Box::new(one()), Box::new(call(n, lit(RV::Int(7)))))),
+        ("2*n(7)", format!("2*{}(7)", n), Ast::Bin(crate::refmodel::ops::BinOp::Mul, Box::new(lit(RV::Int(2))), Box::new(call(n, lit(RV::Int(7)))))),
+        ("2%n(7)", format!("2%{}(7)", n), Ast::Bin(crate::refmodel::ops::BinOp::Mod, Box::new(lit(RV::Int(2))), Box::new(call(n, lit(RV::Int(7)))))),
+        ("true&&n(7)", format!("true&&{}(true)", n), Ast::Bin(crate::refmodel::ops::BinOp::And, Box::new(lit(RV::Bool(true))), Box::new(call(n, lit(RV::Bool(true)))))),
+        ("1==n(7)", format!("1=={}(7)", n), Ast::Bin(crate::refmodel::ops::BinOp::Eq, Box::new(one()), Box::new(call(n, lit(RV::Int(7)))))),
+        ("x=n(7)", format!("(1,{}(7))", n), Ast::Tuple(vec![one(), call(n, lit(RV::Int(7)))])),
         ("-n x", format!("-{} 1", n), Ast::Pre(crate::refmodel::ops::UnOp::Neg, Box::new(call(n, one())))),
         ("n x boolean", format!("{} true", n), call(n, lit(RV::Bool(true)))),
         ("n x float", format!("{} 2.5", n), call(n, lit(RV::Float(2.5)))),
@@ -344,7 +351,7 @@ pub fn run(cfg: &Cfg) -> Report {
     Report {
         property: ID,
         level: "model_checking",
-        rule: format!("for each of 66 names (49 builtins; foo, math::foo, str::nothing; 14 near-builtin names differing in letter case, namespace or one character): every history of length <= {depth} over {{disable builtins, enable, clone-and-continue, clone_from into a used context, clear_functions, clear_variables, define user function n, define failing user function n, bind variable n}} from an empty HashMapContext (contains the complete switch x user-function x variable x {{as built, clone, cleared}} matrix), plus EmptyContext and EmptyContextWithBuiltinFunctions; in every configuration reached, 29 call forms, each evaluated through `Node::eval_with_context` and (HashMapContext) through `Node::eval_with_context_mut` on a clone (`n(x)`, `n x` with int and string (also without a gap before the quote, followed by an operator, and under a prefix minus), `n()`, `n(x, y)`, `n(x, y, z)`, `typeof n x`, `n typeof x`, bare `n`, `n + 1`); oracle: reference resolution (user function first with the documented argument shape, recorded; else builtin table of C10 if enabled; else unknown function) . States = configurations, transitions = evaluations. Non-trivial = configurations reached by >= 2 operations"),
+        rule: format!("for each of 66 names (49 builtins; foo, math::foo, str::nothing; 14 near-builtin names differing in letter case, namespace or one character): every history of length <= {depth} over {{disable builtins, enable, clone-and-continue, clone_from into a used context, clear_functions, clear_variables, define user function n, define failing user function n, bind variable n}} from an empty HashMapContext (contains the complete switch x user-function x variable x {{as built, clone, cleared}} matrix), plus EmptyContext and EmptyContextWithBuiltinFunctions; in every configuration reached, 36 call forms, each evaluated through `Node::eval_with_context` and (HashMapContext) through `Node::eval_with_context_mut` on a clone (`n(x)`, `n x` with int and string (also without a gap before the quote, followed by an operator, and under a prefix minus), `n()`, `n(x, y)`, `n(x, y, z)`, `typeof n x`, `n typeof x`, bare `n`, `n + 1`); oracle: reference resolution (user function first with the documented argument shape, recorded; else builtin table of C10 if enabled; else unknown function) . States = configurations, transitions = evaluations. Non-trivial = configurations reached by >= 2 operations"),
         nontrivial_set: "counter:nontrivial-distinct",
         exhaustive: true,
         bound_completed: format!("histories of length {depth}"),
